@@ -19,9 +19,20 @@ def tie(rep, tier, rng, model_ok):
     rep.cov.setdefault("parts", {})
     a = simprops.corpus_cases("C08") + [simgen.gen_req(rng) for _ in range(500 if q else 15000)]
     b = [simgen.gen_sched(rng) for _ in range(200 if q else 5000)]
+    # a request made through a Scheduler handle while a step waits in Clock::synchronize (scripted clock answer -2):
+    # it must be validated against the time of the step in progress
+    p = []
+    for _ in range(120 if q else 3000):
+        c = simgen.gen_sched(rng)
+        if not c.get("clock"):
+            c["clock"] = [None] * 40
+        c["clock"] = [(-2 if (x is None and rng.random() < 0.5) else x) for x in c["clock"]]
+        c["tags"].add("clock")
+        p.append(c)
     simprops.run(rep, "C08", model_ok,
                  [("requests", a, (1, 3) if q else (1, 2, 4, 8), (oracles.o_harness, oracles.o_time, oracles.o_terminated), nontrivial),
-                  ("sched-1thread", b, (1,), ORACLES, nontrivial)],
+                  ("sched-1thread", b, (1,), ORACLES, nontrivial),
+                  ("request-during-clock-synchronisation", p, (1, 2), ORACLES + (oracles.o_clock_probe,), lambda c, o: True)],
                  "threaded: Scheduler::schedule_*event called from a second thread, parked inside a user-defined Deadline::into_time while the main thread runs step(); the outcome must be one of the two linearisations of Sim.v. requests: past/present/future x absolute/relative deadlines x zero/non-zero periods x all request kinds (Scheduler::schedule_*, Context::schedule_*, EventSource actions via Scheduler::schedule) from driver and handlers; every stepping call is watch-dogged (a hang is an observation). non-trivial = at least two different request outcomes")
     race_part(rep, rng, model_ok, 24 if q else 400)
 
